@@ -72,7 +72,8 @@ def build_harness(scratch, race=False):
     return out
 
 
-def run_harness(binary, prop, tier, seed, outdir, cases=None, shards=16, timeout=3600, extra_env=None, args=()):
+def run_harness(binary, prop, tier, seed, outdir, cases=None, shards=16, timeout=None, extra_env=None, args=()):
+    timeout = timeout or (1500 if tier == "quick" else 7000)
     cmd = [binary, "-prop", prop, "-tier", tier, "-seed", str(seed), "-out", outdir, "-shards", str(shards)]
     if cases:
         cmd += ["-cases", cases]
